@@ -34,6 +34,16 @@ def corpus():
     s.append(("patterns-first-verdict-wins", ["pats n e", "login 0 1 l", "pats m e", "login 0 1 l", "login 0 3 l", "pats e n", "login 1 2 l",
                                               "chpw 1 4", "login 1 2 l", "pats m m", "login 1 4 l", "login 0 1 l", "pats m n e", "login 0 1 l"]))
     s.append(("patterns-and-erroring-server", ["pats m e", "srv 0 err52", "login 0 1 l", "chpw 0 3", "login 0 1 l", "srv 1 down", "login 0 1 l", "login 0 3 l"]))
+    # a refusal is a verdict whatever the directory writes next to it (seeded by a reviewer: Active Directory
+    # account-state sub-codes in the diagnostic message turned the refusal into "server did not answer"):
+    # account disabled / locked out / password expired after a cached login, directory UP
+    s.append(("ad-account-disabled-cached-password", ["diag ad", "login 0 1 l", "sync", "acct 0 533", "login 0 1 l", "sync"] + dn +
+              ["login 0 1 l", "prim slow", "login 0 1 l"]))
+    s.append(("ad-account-states", ["diag ad", "login 1 2 l", "acct 1 775", "login 1 2 1", "acct 1 ok", "login 1 2 l", "acct 1 532", "login 1 3 l",
+                                    "login 1 2 l", "acct 1 ok", "login 0 3 l", "login 2 1 l", "login 0 1 l", "acct 0 701", "srv 0 err51", "login 0 1 l",
+                                    "acct 0 530", "login 0 1 l"]))
+    s.append(("noisy-diagnostics", ["diag noisy", "login 0 1 l", "login 0 3 l", "login 0 4 l", "chpw 0 3", "login 0 1 l", "acct 0 773", "login 0 3 l",
+                                    "diag plain", "acct 0 ok", "login 0 3 l", "acct 0 531", "login 0 3 l"] + dn + ["login 0 3 l"]))
     # the name as typed vs the normalised name (seeded by a reviewer in checkAuth's basic-auth branch): a hash
     # cached under 'ALICE' cannot be evicted by a rejection for 'alice' and survives into the outage
     s.append(("typed-name-reaches-the-backend", ["login 0 1 2", "sync", "chpw 0 3", "login 0 1 1", "sync"] + dn +
@@ -74,6 +84,9 @@ def gen_seq(rng, maxlen, allow_hang=False):
     ops = []
     n = rng.randint(4, maxlen)
     style = rng.choice(["mixed", "mixed", "outage", "outage", "tamper", "churn"])
+    if rng.random() < 0.6:
+        # what the directory writes into its refusals: Active Directory sub-codes, misleading prose, nothing
+        ops.append("diag " + rng.choice(["ad", "ad", "ad", "noisy", "noisy", "plain"]))
     if rng.random() < 0.55:
         # two or three bind patterns: e names the entry, n a DN without entry, m a name answered with an error
         ops.append("pats " + rng.choice(["e m", "e m", "m e", "m e", "e n", "n e", "e e", "m m", "m e m", "e m n", "m n e", "e m m"]))
@@ -91,6 +104,13 @@ def gen_seq(rng, maxlen, allow_hang=False):
                 ops.append("chpw %d %d" % (u, pw))
                 if rng.random() < 0.6:
                     ops.append("login %d %d l" % (u, rng.choice(known[u])))
+                    if rng.random() < 0.6:
+                        ops.append("sync")
+            if rng.random() < 0.3:
+                # the account becomes unusable; sometimes the refusal is observed before the outage
+                ops.append("acct %d %s" % (u, rng.choice(["533", "775", "532", "701", "773", "530", "531"])))
+                if rng.random() < 0.6:
+                    ops.append("login %d %d %s" % (u, dirpw[u] or 1, rng.choice("lL1")))
                     if rng.random() < 0.6:
                         ops.append("sync")
             ops.append("srv 0 %s" % rng.choice(["down", "down", rng.choice(ERRS)]))
@@ -124,6 +144,8 @@ def gen_seq(rng, maxlen, allow_hang=False):
             if allow_hang and rng.random() < 0.03:
                 st = "hang"
             ops.append("srv %d %s" % (rng.randint(0, 1), st))
+        elif x < 0.655:
+            ops.append("acct %d %s" % (rng.randint(0, 1), rng.choice(["ok", "ok", "530", "531", "532", "533", "533", "701", "773", "775", "775"])))
         elif x < 0.70:
             u = rng.randint(0, 1)
             if rng.random() < 0.1:
@@ -166,7 +188,8 @@ def gen_seq(rng, maxlen, allow_hang=False):
     return ops
 
 
-REDUCED = ["login 0 1 l", "login 0 3 l", "chpw 0 3", "srv 0 down", "srv 0 up", "sync", "prim slow", "adv 50", "tamper c 0 colexp 500"]
+REDUCED = ["login 0 1 l", "login 0 3 l", "chpw 0 3", "srv 0 down", "srv 0 up", "sync", "prim slow", "adv 50", "tamper c 0 colexp 500",
+           "acct 0 775"]
 
 
 def exhaustive(depth):
@@ -177,7 +200,7 @@ def exhaustive(depth):
             continue
         if any(a == b and not a.startswith("adv") for a, b in zip(combo, combo[1:])):
             continue
-        yield ["pats e m", "srv 1 down", "login 0 1 l", "sync"] + list(combo)
+        yield ["diag ad", "pats e m", "srv 1 down", "login 0 1 l", "sync"] + list(combo)
 
 
 # ---------------------------------------------------------------- run
@@ -343,6 +366,8 @@ def run(ctx):
                     hist["%s:tamper:%s" % (short, o[3])] += 1
                 elif o[0] == "pats":
                     hist["%s:pats:%s" % (short, "".join(o[1:]))] += 1
+                elif o[0] in ("acct", "diag"):
+                    hist["%s:%s:%s" % (short, o[0], o[-1])] += 1
                 elif o[0] in ("sync", "prim", "adv", "chpw", "srv"):
                     hist["%s:%s" % (short, o[0])] += 1
             if not bad:
@@ -373,7 +398,8 @@ def run(ctx):
         "rule": "histories for two directory users (+ one unknown) over two LDAPS servers with one to three bind patterns each (entry / DN without entry / name answered with invalidDNSyntax, reconfigurable): login with current/old/wrong/empty password "
                 "(form fields or basic auth at loginHandler, basic auth through checkAuth; three spellings of the name; the identity granted must be the normalised user; "
                 "the same requests against an htpasswd file with a legacy mixed-case entry), server up/down/hanging/erroring (result codes 1, 51, 52, 53, 80), "
-                "password change/removal, clock advance, primary slow/down, synchronisation, and rows rewritten by SQL (column expiry, "
+                "password change/removal, accounts made unusable (AD sub-codes 530/531/532/533/701/773/775) and the directory's refusals carrying "
+                "AD-style, misleading or empty diagnostic messages, clock advance, primary slow/down, synchronisation, and rows rewritten by SQL (column expiry, "
                 "foreign signature, other data type, saved row put back under any user). Every op's result, the directory's own bind "
                 "record and the four rows (signed subject/password/type/expiry, verifies?, column expiry) are compared with KM.PwCache "
                 "and judged with the predicates of KM.Props.C07. non-trivial = distinct histories ending in an offline acceptance",
